@@ -81,6 +81,42 @@ def run(tier, seed):
             acc.violation_count += max(0, rep["violation_count"] - len(rep["violations"]))
             for s in rep["sample"][:1]:
                 acc.sample({"rational": [s[0][:80], s[1][:80]]}, cap=6)
+            # (3b) synthetic constants: random units (a third of them with dimensions that cancel completely - Sv/Gy, l/dm^3,
+            # century/hyr: a decoder that "normalises" such a unit away changes the constant, seed C17-f), values, words, sources
+            rngc = rng_for(seed, PID, "constants", kind)
+            units = [u for u in R.U.values()]
+            by_dims = {}
+            for u in units:
+                by_dims.setdefault(tuple(u["dims"]), []).append(u)
+            PX = [0, 0, 0, 3, -3, -2, -1, 1, 2, 6, -6, 9, 12, -9, 24, -24]
+            cases = []
+            for _ in range(3000 if tier == "quick" else 60000):
+                parts, keys = [], set()
+                if rngc.random() < 0.35:
+                    grp = rngc.choice([g for g in by_dims.values() if len(g) > 1])
+                    a, b = rngc.sample(grp, 2)
+                    pw = rngc.choice([1, 1, 2, 3])
+                    parts += [[a["key"], pw, rngc.choice(PX)], [b["key"], -pw, rngc.choice(PX)]]
+                    keys |= {a["key"], b["key"]}
+                for _k in range(rngc.choice([0, 0, 1, 2, 3])):
+                    u = rngc.choice(units)
+                    if u["key"] in keys:
+                        continue
+                    keys.add(u["key"])
+                    parts.append([u["key"], rngc.choice([1, 1, -1, 2, -2, 3]), rngc.choice(PX)])
+                if parts and all(p[0] == "KiloGram" for p in parts):
+                    pass
+                n = rngc.choice([0, 1, -1, rngc.randint(-10 ** 6, 10 ** 6), rngc.randint(-10 ** 40, 10 ** 40)])
+                dd = rngc.choice([1, 1, 2, 10 ** rngc.randint(0, 30), rngc.randint(1, 10 ** 12)])
+                cases.append({"parts": parts, "n": str(n), "d": str(dd), "tokens": rngc.sample(["mass", "of", "x", "é", "a b", ""], rngc.randint(0, 3)),
+                              "description": rngc.choice(["", "A synthetic constant", "Größe (π)"]), "source": rngc.choice([None, 0, 1, 2 ** 40])})
+            for i in range(0, len(cases), 1000):
+                rep = d.call({"op": "c17_constants", "cases": cases[i:i + 1000]}, timeout=3600)
+                acc.evaluations += rep["count"]
+                acc.count("synthetic_constants_" + kind, rep["count"])
+                for v in rep["violations"]:
+                    acc.violate("c17:constant-roundtrip:synthetic", "synthetic constant with unit %s: %s" % (v["case"]["parts"], v["what"]), dict(case=v["case"], what=v["what"], build=kind))
+                acc.violation_count += max(0, rep["violation_count"] - len(rep["violations"]))
             # (4) shipped constants
             facts, sources = FX.load(d, roundtrip=True)
             ok = 0
